@@ -28,6 +28,10 @@ pub struct InscriptionCase {
   pub chain: ChainSpec,
   pub config: ConfigSpec,
   pub schedule: ScheduleSpec,
+  /// index with a first inscription height just above the empty prefix
+  /// (hook H4), as on mainnet where inscriptions start at 767430
+  #[serde(default)]
+  pub late_start: bool,
 }
 
 pub struct Obs<'a> {
@@ -64,8 +68,14 @@ fn run_case(case: &InscriptionCase, cx: &Cx, oracle: Oracle, tag: &str) -> Resul
   let blocks = &built.blocks;
   let mut config = case.config.config();
   config.no_inscriptions = false;
+  let mut first_inscription_height = 0;
+  if case.late_start && case.chain.prefix > 0 {
+    first_inscription_height = u32::from(case.chain.prefix) + 1;
+    config.first_inscription_height = Some(first_inscription_height);
+    cx.label("first-inscription-height>0");
+  }
   let mut run = Run::new(network, &config).map_err(harness("open"))?;
-  let mut model = RefInscriptions::new(0);
+  let mut model = RefInscriptions::new(first_inscription_height);
   model.apply_block(&genesis(network));
   let mut applied = 0usize;
   for (stop, reopen) in case.schedule.stops(blocks.len()) {
@@ -886,12 +896,14 @@ fn case_strategy(profile: Profile, cuts: usize, testnet4: f64, sats: Option<bool
     chain_spec(&profile),
     config_spec(sats, None),
     schedule_spec(cuts),
+    proptest::bool::weighted(0.5),
   )
-    .prop_map(|(testnet4, chain, config, schedule)| InscriptionCase {
+    .prop_map(|(testnet4, chain, config, schedule, late_start)| InscriptionCase {
       testnet4,
       chain,
       config,
       schedule,
+      late_start,
     })
     .boxed()
 }
@@ -937,9 +949,9 @@ pub fn c04(s: &mut Session) -> Meta {
   s.run_part(Part::new("audit", t.pick(1000, 20_000), strategy, c04_check).shrink_iters(300).timeout(300));
   Meta {
     level: "exploration",
-    rule: "C03 generator with more envelopes per input, commit interval 1..3 (so the lost and unbound pseudo-outputs are merged in several commits) and 1..5 update calls with reopen. After every update call the H1 dump is audited: sequence numbers 0..n-1 each have exactly one satpoint; the multiset of (sequence number, offset) stored in output entries (all outputs and both pseudo-outputs) equals the satpoint table; offsets lie below the output's value; get_inscriptions_for_output agrees; n equals the number of envelopes ParsedEnvelope finds in the non-coinbase transactions and equals blessed+cursed; the unbound statistic equals the unbound pseudo-output's list. Non-trivial = state with an output holding >= 2 inscriptions and an inscription on a pseudo-output; distinct by chain spec.",
+    rule: "In about one case in eight the index is opened with a first inscription height just above the chain's empty prefix (hook H4, as on mainnet where inscriptions start at 767430; with and without a full UTXO index) and the first generated block, at exactly that height, carries envelopes. C03 generator with more envelopes per input, commit interval 1..3 (so the lost and unbound pseudo-outputs are merged in several commits) and 1..5 update calls with reopen. After every update call the H1 dump is audited: sequence numbers 0..n-1 each have exactly one satpoint; the multiset of (sequence number, offset) stored in output entries (all outputs and both pseudo-outputs) equals the satpoint table; offsets lie below the output's value; get_inscriptions_for_output agrees; n equals the number of envelopes ParsedEnvelope finds in the non-coinbase transactions and equals blessed+cursed; the unbound statistic equals the unbound pseudo-output's list. Non-trivial = state with an output holding >= 2 inscriptions and an inscription on a pseudo-output; distinct by chain spec.",
     assumptions: &["first inscription height is 0 on regtest and testnet4"],
-    required_labels: &["output-with-two-inscriptions", "lost-inscription", "unbound-inscription", "unbound-in-two-blocks"],
+    required_labels: &["output-with-two-inscriptions", "lost-inscription", "unbound-inscription", "unbound-in-two-blocks", "first-inscription-height>0"],
   }
 }
 
